@@ -230,6 +230,19 @@ func gateCases() []gateCase {
 			}
 		}
 	}
+	// hold a worker until the partner call has RETURNED: infeasible on a correct
+	// pool for the hold points at which the worker owns a task (the call must
+	// wait for it; the gate is then opened by force), an early return otherwise
+	for _, tpl := range []string{"waitall", "joinall", "resize-down-wait"} {
+		for _, h := range workerHold {
+			for _, w := range []int{1, 2, 3} {
+				if w == 1 && tpl == "resize-down-wait" {
+					continue
+				}
+				r = append(r, gateCase{tpl, h, "h.call.returned", w})
+			}
+		}
+	}
 	return r
 }
 
@@ -268,8 +281,14 @@ func runGate(c *core.Ctx, idx int, gc gateCase) {
 	}
 	callDone := make(chan struct{})
 	final := gc.workers
+	var callStamp, retStamp int64
+	nAtCall := 0
 	go func() {
 		defer close(callDone)
+		defer func() {
+			retStamp = tr.Stamp()
+			tr.Record("h.call.returned", s.tp, gc.template)
+		}()
 		switch gc.template {
 		case "submit":
 			s.add(0, 0)
@@ -288,9 +307,11 @@ func runGate(c *core.Ctx, idx int, gc gateCase) {
 		case "joinall":
 			final = 0
 			s.add(0, 0)
+			nAtCall, callStamp = s.n(), tr.Stamp()
 			s.tp.JoinAll()
 		case "waitall":
 			s.add(0, 0)
+			nAtCall, callStamp = s.n(), tr.Stamp()
 			s.tp.WaitAll()
 		}
 	}()
@@ -324,6 +345,15 @@ func runGate(c *core.Ctx, idx int, gc gateCase) {
 		return
 	}
 	tr.ClearGates()
+	// WaitAll / JoinAll must not return while a task added before the call is
+	// queued or running
+	for i := 0; i < nAtCall; i++ {
+		if s.addRet[i] != 0 && s.addRet[i] < callStamp && (atomic.LoadInt32(&s.ended[i]) == 0 || s.endAt[i] > retStamp) {
+			c.Violation(gc.template+"-early", fmt.Sprintf("%s returned (stamp %d) while task %d, added before the call (stamp %d < %d), had not ended (end stamp %d)", gc.template, retStamp, i, s.addRet[i], callStamp, s.endAt[i]), stream, idx,
+				map[string]interface{}{"case": desc, "trace": traceTail(tr, s.tp, 40)})
+			break
+		}
+	}
 	if feasible {
 		c.Event("gate.feasible", 1)
 		c.NontrivialKey("gate|" + desc)
@@ -487,6 +517,31 @@ func runNoise(c *core.Ctx, slot, idx int) {
 			}
 			ret := tr.Stamp()
 			waits = append(waits, waitRec{"waitall", call, ret, n})
+			helped = true
+		case k < 9 && r.Chance(1, 2): // concurrent resizers asking for the same count
+			n := r.Range(1, 6)
+			g := r.Range(2, 3)
+			desc += fmt.Sprintf("concresize%dx%d ", g, n)
+			var wg sync.WaitGroup
+			okAll := int32(1)
+			for j := 0; j < g; j++ {
+				wait := r.Bool()
+				wg.Add(1)
+				go func() {
+					defer wg.Done()
+					if !wait {
+						s.tp.SetWorkerCount(n, false)
+					} else if !s.call(c, stream, idx, desc, "setworkercount-wait", n, func() { s.tp.SetWorkerCount(n, true) }) {
+						atomic.StoreInt32(&okAll, 0)
+					}
+				}()
+			}
+			wg.Wait()
+			if atomic.LoadInt32(&okAll) == 0 {
+				s.tp.JoinAll()
+				return
+			}
+			cur = n
 			helped = true
 		default: // resize
 			n := r.Range(1, 6)
